@@ -101,13 +101,14 @@ Section ReadBack.
   Definition carriable (names : list str) : Prop :=
     names <> [] /\ Forall no_sep names /\ startswith (hd [] names) [HASH] = false.
 
-  (* the repaired writer's check gives `carriable` for a non-empty name list *)
-  Lemma names_writable_carriable names : names <> [] -> names_writable names = true -> carriable names.
+  (* the repaired writer's check is exactly `carriable` *)
+  Lemma names_writable_carriable names : names_writable names = true -> carriable names.
   Proof.
-    intros Hne H. unfold names_writable in H. apply andb_true_iff in H as [H1 H2]. split; [exact Hne|]. split.
+    unfold names_writable. destruct names as [|n0 names]; [discriminate|].
+    intros H. apply andb_true_iff in H as [H1 H2]. split; [discriminate|]. split.
     - apply Forall_forall. intros n Hn. rewrite forallb_forall in H1. specialize (H1 n Hn).
       unfold name_sep_free in H1. apply negb_true_iff in H1. apply has_sep_false_iff. exact H1.
-    - destruct names as [|n0 names]; [now elim Hne|]. cbn [hd]. now apply negb_true_iff.
+    - cbn [hd]. now apply negb_true_iff.
   Qed.
 
   Lemma column_line_ok names : carriable names ->
